@@ -37,6 +37,8 @@ type ccStats struct {
 	ByLeaves         int            `json:"bystander_departures_during_action_bursts"`
 	TopupBursts      int            `json:"top_up_bursts_racing_an_open"`
 	OpenVsMembership int            `json:"membership_calls_queued_around_an_open"`
+	Windows          int            `json:"lock_free_calls_placed_inside_an_open"`
+	WindowsHit       int            `json:"lock_free_calls_placed_inside_an_open_that_landed"`
 	Anomalies        int            `json:"anomalies"`
 	Crashes          int            `json:"child_crashes"`
 	Histories        int            `json:"histories"`
@@ -958,6 +960,240 @@ func openVsMembership(r *rand.Rand, st *ccStats, hid int) string {
 	return w.String()
 }
 
+// windowSM is a pass-through seat manager (installed with the verif hook WrapSeatManager): the harness learns that the
+// engine is at a given seat-manager call of openGame, i.e. after the table was cloned and before the clone replaces it,
+// and makes a call that takes no engine lock at exactly that point.
+type windowSM struct {
+	seat_manager.SeatManager
+	mu    sync.Mutex
+	armed bool
+	count int
+	at    int    // the call (counted from arming) before which the action runs
+	where string // the method that was about to be called
+	act   func()
+}
+
+func (w *windowSM) hit(method string) {
+	w.mu.Lock()
+	if !w.armed {
+		w.mu.Unlock()
+		return
+	}
+	w.count++
+	if w.count != w.at {
+		w.mu.Unlock()
+		return
+	}
+	w.armed = false
+	w.where = method
+	f := w.act
+	w.mu.Unlock()
+	f()
+}
+func (w *windowSM) IsInitPositions() bool {
+	w.hit("IsInitPositions")
+	return w.SeatManager.IsInitPositions()
+}
+func (w *windowSM) InitPositions(isRandom bool) error {
+	w.hit("InitPositions")
+	return w.SeatManager.InitPositions(isRandom)
+}
+func (w *windowSM) RotatePositions() error {
+	w.hit("RotatePositions")
+	return w.SeatManager.RotatePositions()
+}
+func (w *windowSM) IsPlayerActive(id string) (bool, error) {
+	w.hit("IsPlayerActive")
+	return w.SeatManager.IsPlayerActive(id)
+}
+func (w *windowSM) CurrentDealerSeatID() int {
+	w.hit("CurrentDealerSeatID")
+	return w.SeatManager.CurrentDealerSeatID()
+}
+func (w *windowSM) CurrentSBSeatID() int {
+	w.hit("CurrentSBSeatID")
+	return w.SeatManager.CurrentSBSeatID()
+}
+func (w *windowSM) CurrentBBSeatID() int {
+	w.hit("CurrentBBSeatID")
+	return w.SeatManager.CurrentBBSeatID()
+}
+func (w *windowSM) Seats() map[int]*seat_manager.SeatPlayer {
+	w.hit("Seats")
+	return w.SeatManager.Seats()
+}
+
+// windowCase: a call that takes no engine lock (a reserved player sits in, a top-up, a blind update) is made at a chosen
+// seat-manager call inside openGame. Whatever the moment, the hand that opens deals in exactly the players its list names
+// with the stacks they had, and a call that was accepted is not forgotten (the last is finding D31 in the unchanged code).
+func windowCase(r *rand.Rand, st *ccStats, hid int) string {
+	var w strings.Builder
+	line := func(format string, a ...interface{}) { fmt.Fprintf(&w, format+"\n", a...) }
+	n := 2 + r.Intn(4)
+	setting := pokertable.TableSetting{
+		TableID: fmt.Sprintf("w%d", hid),
+		Meta: pokertable.TableMeta{CompetitionID: "c", Rule: pokertable.CompetitionRule_Default, Mode: pokertable.CompetitionMode_CT, MaxDuration: 1000000,
+			TableMaxSeatCount: 9, TableMinPlayerCount: 2, MinChipUnit: 10, ActionTime: 7},
+		Blind: pokertable.TableBlindState{Level: 1, Ante: 0, Dealer: 0, SB: 10, BB: 20},
+	}
+	rig, err := NewRig(setting, NewRecBackend(), 0)
+	if err != nil {
+		return ""
+	}
+	defer rig.abandon()
+	st.Histories++
+	st.Windows++
+	seats := r.Perm(9)
+	parts := map[string]int{}
+	for i := 0; i < n; i++ {
+		rig.te.PlayerReserve(pokertable.JoinPlayer{PlayerID: pid(i + 1), RedeemChips: 1000, Seat: seats[i]})
+		time.Sleep(200 * time.Microsecond)
+		rig.te.PlayerJoin(pid(i + 1))
+		waitFor(100*time.Millisecond, rig.autoJoinQuiet)
+		schedBarrier(3)
+		time.Sleep(400 * time.Microsecond)
+		parts[pid(i+1)] = i
+	}
+	// one more has a seat but has not sat in yet
+	late := n + 1
+	rig.te.PlayerReserve(pokertable.JoinPlayer{PlayerID: pid(late), RedeemChips: 800, Seat: seats[n]})
+	time.Sleep(300 * time.Microsecond)
+	op := []string{"join", "redeem", "blind"}[r.Intn(3)]
+	var opErr error
+	who := 1 + r.Intn(n)
+	chips := int64(10 * (1 + r.Intn(50)))
+	wsm := &windowSM{at: 1 + r.Intn(n+9)}
+	wsm.act = func() {
+		switch op {
+		case "join":
+			opErr = rig.te.PlayerJoin(pid(late))
+		case "redeem":
+			opErr = rig.te.PlayerRedeemChips(pokertable.JoinPlayer{PlayerID: pid(who), RedeemChips: chips})
+		case "blind":
+			rig.te.UpdateBlind(2, 0, 0, 20, 40)
+		}
+	}
+	rig.hk.WrapSeatManager(func(inner seat_manager.SeatManager) seat_manager.SeatManager {
+		wsm.SeatManager = inner
+		return wsm
+	})
+	rig.te.StartTableGame()
+	rig.te.SetUpTableGame(0, parts)
+	time.Sleep(300 * time.Microsecond)
+	pre := rig.snapCount()
+	wsm.mu.Lock()
+	wsm.armed = true
+	wsm.mu.Unlock()
+	for i := 0; i < n; i++ {
+		rig.te.PlayerSettlementFinish(pid(i + 1))
+	}
+	opened := waitFor(2600*time.Millisecond, func() bool {
+		t := rig.live()
+		return t.State.GameCount == 1 && t.State.GameState != nil
+	})
+	time.Sleep(2 * time.Millisecond)
+	wsm.mu.Lock()
+	wsm.armed = false
+	where, cnt := wsm.where, wsm.count
+	wsm.mu.Unlock()
+	line("cc new h=%d kind=window players=%d", hid, n)
+	line("cc window op=%s at=%d:%s calls=%d opened=%s res=%s", op, wsm.at, where, cnt, b01(opened), strings.ReplaceAll(tbErrName(opErr), " ", "_"))
+	if !opened || where == "" {
+		line("cc end")
+		return w.String()
+	}
+	st.WindowsHit++
+	var o *pokertable.Table
+	for _, sn := range rig.snapsFrom(pre) {
+		if sn.State.Status == pokertable.TableStateStatus_TableGameOpened && sn.State.GameCount == 1 {
+			o = sn
+			break
+		}
+	}
+	live := safeClone(rig.live())
+	bad := []string{}
+	if o != nil && live != nil {
+		// the hand's list is the dealt-in set, each once
+		seen := map[int]bool{}
+		okList := true
+		for _, pi := range o.State.GamePlayerIndexes {
+			if pi < 0 || pi >= len(o.State.PlayerStates) || seen[pi] || !o.State.PlayerStates[pi].IsParticipated {
+				okList = false
+				break
+			}
+			seen[pi] = true
+		}
+		for pi, p := range o.State.PlayerStates {
+			if p.IsParticipated && !seen[pi] {
+				okList = false
+			}
+		}
+		if !okList {
+			bad = append(bad, "C02.hand-list-is-not-the-dealt-in-set")
+		}
+		if gs := live.State.GameState; gs != nil && okList {
+			if len(gs.Players) != len(o.State.GamePlayerIndexes) {
+				bad = append(bad, "C02.hand-list-is-not-the-dealt-in-set")
+			} else {
+				for i, pi := range o.State.GamePlayerIndexes {
+					if gs.Players[i].Bankroll != o.State.PlayerStates[pi].Bankroll {
+						bad = append(bad, "C02.hand-stack-differs-from-bankroll-at-open")
+						break
+					}
+				}
+			}
+		}
+		switch op {
+		case "redeem":
+			if opErr == nil {
+				for _, p := range live.State.PlayerStates {
+					if p.PlayerID == pid(who) && p.Bankroll != 1000+chips && !p.IsParticipated {
+						bad = append(bad, "C01.top-up-accepted-while-a-hand-is-being-opened-is-lost")
+					}
+					if p.PlayerID == pid(who) && p.IsParticipated {
+						// dealt in: the blinds may have been posted already; what he brought in is bankroll + nothing the table knows of yet
+						if gs := live.State.GameState; gs != nil {
+							gi := -1
+							for k, pi := range live.State.GamePlayerIndexes {
+								if pi >= 0 && pi < len(live.State.PlayerStates) && live.State.PlayerStates[pi].PlayerID == pid(who) {
+									gi = k
+								}
+							}
+							if gi >= 0 && gi < len(gs.Players) && p.Bankroll != 1000+chips {
+								bad = append(bad, "C01.top-up-accepted-while-a-hand-is-being-opened-is-lost")
+							}
+						}
+					}
+				}
+			}
+		case "blind":
+			if b := live.State.BlindState; b == nil || b.Level != 2 || b.SB != 20 || b.BB != 40 {
+				bad = append(bad, "C12.blind-update-made-while-a-hand-is-being-opened-is-lost")
+			}
+			// the hand itself is played at one level, the one published for it
+			if gb, gs := live.State.GameBlindState, live.State.GameState; gb != nil && gs != nil {
+				if gs.Meta.Blind.SB != gb.SB || gs.Meta.Blind.BB != gb.BB || gs.Meta.Ante != gb.Ante {
+					bad = append(bad, "C12.hand-options-differ-from-published-hand-blinds")
+				}
+			}
+		case "join":
+			if opErr == nil {
+				for _, p := range live.State.PlayerStates {
+					if p.PlayerID == pid(late) && !p.IsIn {
+						bad = append(bad, "C03.join-accepted-while-a-hand-is-being-opened-is-lost")
+					}
+				}
+			}
+		}
+	}
+	for _, b := range bad {
+		line("cc anomaly %s op=%s at=%d:%s opened=%s live=%s", b, op, wsm.at, where, strings.ReplaceAll(tableObs(o), " ", "/"), strings.ReplaceAll(tableObs(live), " ", "/"))
+		st.Anomalies++
+	}
+	line("cc end")
+	return w.String()
+}
+
 // smBurst: concurrent seat-manager mutators on a bare seat manager
 func smBurst(r *rand.Rand, st *ccStats, hid int) string {
 	var w strings.Builder
@@ -1053,6 +1289,7 @@ func runConcChild(args []string) {
 	ns := fs.Int("sm", 20, "seat-manager bursts")
 	nt := fs.Int("topups", 0, "top-up bursts racing an open")
 	nov := fs.Int("openvs", 0, "membership calls queued on the engine lock around an open")
+	nw := fs.Int("windows", 0, "lock-free calls placed at a chosen seat-manager call inside an open")
 	base := fs.Int("base", 0, "first history id")
 	out := fs.String("out", "cc.trace", "trace file")
 	statsFile := fs.String("stats", "", "stats json")
@@ -1094,6 +1331,10 @@ func runConcChild(args []string) {
 		hid++
 		write(openVsMembership(r, st, hid))
 	}
+	for i := 0; i < *nw; i++ {
+		hid++
+		write(windowCase(r, st, hid))
+	}
 	if *statsFile != "" {
 		b, _ := json.Marshal(st)
 		os.WriteFile(*statsFile, b, 0644)
@@ -1108,6 +1349,7 @@ func runConc(args []string) {
 	ns := fs.Int("sm", 200, "seat-manager bursts")
 	nt := fs.Int("topups", 0, "top-up bursts racing an open")
 	nov := fs.Int("openvs", 0, "membership calls queued on the engine lock around an open")
+	nw := fs.Int("windows", 0, "lock-free calls placed at a chosen seat-manager call inside an open")
 	out := fs.String("out", "cc.trace", "trace file")
 	statsFile := fs.String("stats", "", "stats json")
 	workers := fs.Int("workers", 6, "child processes")
@@ -1129,7 +1371,7 @@ func runConc(args []string) {
 			tmp := fmt.Sprintf("%s.%d", *out, wk)
 			stf := tmp + ".json"
 			cmd := exec.Command(os.Args[0], "concchild", "-seed", strconv.FormatInt(*seed*100+int64(wk), 10), "-n", strconv.Itoa((*n+*workers-1) / *workers),
-				"-actions", strconv.Itoa((*na+*workers-1) / *workers), "-sm", strconv.Itoa((*ns+*workers-1) / *workers), "-topups", strconv.Itoa((*nt+*workers-1) / *workers), "-openvs", strconv.Itoa((*nov+*workers-1) / *workers), "-base", strconv.Itoa(wk*100000), "-out", tmp, "-stats", stf)
+				"-actions", strconv.Itoa((*na+*workers-1) / *workers), "-sm", strconv.Itoa((*ns+*workers-1) / *workers), "-topups", strconv.Itoa((*nt+*workers-1) / *workers), "-openvs", strconv.Itoa((*nov+*workers-1) / *workers), "-windows", strconv.Itoa((*nw+*workers-1) / *workers), "-base", strconv.Itoa(wk*100000), "-out", tmp, "-stats", stf)
 			var errb strings.Builder
 			cmd.Stderr = &errb
 			cmd.Env = append(os.Environ(), "GOMEMLIMIT=2GiB")
@@ -1161,6 +1403,8 @@ func runConc(args []string) {
 					st.ByLeaves += sub.ByLeaves
 					st.TopupBursts += sub.TopupBursts
 					st.OpenVsMembership += sub.OpenVsMembership
+					st.Windows += sub.Windows
+					st.WindowsHit += sub.WindowsHit
 					st.Histories += sub.Histories
 					for k, v := range sub.ErrKinds {
 						st.ErrKinds[k] += v
